@@ -507,6 +507,30 @@ def main(tier, seed):
             continue                      # a valid schema the parser rejects (open finding of C04): nothing to print
         hist["valid_corpus"] = hist.get("valid_corpus", 0) + 1
         roundtrip("vc_" + os.path.basename(vp)[:-4], vt, lengths[:3], "rich")
+        # to standard output (-o --): every schema of the file, one after the other
+        names_ = re.findall(r"(?im)^\s*SCHEMA\s+(\w+)\s*;", vt)
+        if len(names_) >= 2:
+            rco, oo, eo = sh([os.path.join(bdir, "bin", "exppp"), "-o", "--", vp], timeout=60, cwd=wroot)
+            evals += 1
+            hist["stdout_runs"] = hist.get("stdout_runs", 0) + 1
+            missing_ = [n_ for n_ in names_ if not re.search(r"(?i)\bSCHEMA\s+%s\s*;" % n_, oo)]
+            if rco != 0 or missing_:
+                oracle_fail += 1
+                res.violation("exppp -o -- on %s (schemas %s): status %d, schemas missing from the output: %s" % (os.path.basename(vp), names_, rco, missing_),
+                              {"input_file": vp, "replay": "%s/bin/exppp -o -- %s" % (bdir, vp)})
+    # INTEGER literals at and beyond the range of int (beyond: open finding integer_literal_beyond_int)
+    for lit_ in ("2147483647", "2147483648", "99999999999"):
+        fbig = os.path.join(wroot, "big_integer.exp")
+        open(fbig, "w").write("SCHEMA big_integer;\nCONSTANT\n  big : INTEGER := %s;\nEND_CONSTANT;\nEND_SCHEMA;\n" % lit_)
+        rcb_, ob_, eb_ = sh([os.path.join(bdir, "bin", "exppp"), "-o", "--", fbig], timeout=60, cwd=wroot)
+        evals += 1
+        hist["integer_literals"] = hist.get("integer_literals", 0) + 1
+        mlit = re.search(r":=\s*(-?\s*-?\d+)", ob_)
+        if rcb_ != 0 or not mlit or mlit.group(1).replace(" ", "") != lit_:
+            oracle_fail += 1
+            res.violation("the INTEGER literal %s is printed as %s (status %d)" % (lit_, mlit.group(1) if mlit else None, rcb_),
+                          {"replay": "%s/bin/exppp -o -- <SCHEMA s; CONSTANT big : INTEGER := %s; END_CONSTANT; END_SCHEMA;>" % (bdir, lit_)},
+                          signature="integer_literal_beyond_int" if int(lit_) > 2147483647 else None)
     dpath = os.path.join(VERIF, "corpus", "C07", "decl.exp")
     if os.path.exists(dpath):
         hist["declaration_schema"] = 1
